@@ -204,6 +204,10 @@ Lemma vyread_darr t b m a :
   VList (map (fun i => vyread t m (a + 32 + Z.of_nat i * vmem_size t)) (seq 0 (Z.to_nat (mloadw m a)))).
 Proof. reflexivity. Qed.
 
+Lemma agree_elem m1 m2 a1 a2 n vm i o : agree m1 m2 a1 a2 (o + n * vm) -> 0 <= vm -> 0 <= o -> 0 <= i < n ->
+  agree m1 m2 (a1 + o + i * vm) (a2 + o + i * vm) vm.
+Proof. intros Hag H0 Ho Hi j Hj. rewrite <- !Z.add_assoc. apply Hag. nia. Qed.
+
 Lemma VE_sarr t n : VE t -> VE (TSArr t n).
 Proof.
   intros IHt Hw m1 m2 a1 a2 Hag Hin. cbn [wf_ty] in Hw. apply andb_prop in Hw as [Hn Hwt].
@@ -211,7 +215,7 @@ Proof.
   rewrite vmem_sarr in Hag. rewrite !vyread_sarr in *.
   cbn [in_type] in Hin. apply andb_prop in Hin as [_ Hall]. rewrite forallb_forall in Hall.
   f_equal. apply map_seq_ext. intros i Hi. apply IHt; auto.
-  + intros j Hj. rewrite <- !Z.add_assoc. apply Hag. nia.
+  + pose proof (agree_elem m1 m2 a1 a2 n (vmem_size t) (Z.of_nat i) 0) as Q. rewrite !Z.add_0_r in Q. apply Q; auto; lia.
   + apply Hall. apply in_map_iff. exists i. split; auto. apply in_seq. lia.
 Qed.
 
@@ -220,11 +224,12 @@ Proof.
   intros IHt Hw m1 m2 a1 a2 Hag Hin. cbn [wf_ty] in Hw. apply andb_prop in Hw as [Hn Hwt].
   pose proof (vmem_nonneg t Hwt) as H0.
   rewrite vmem_darr in Hag. rewrite !vyread_darr in *.
-  assert (E : mloadw m2 a2 = mloadw m1 a1) by (apply mloadw_pt; intros i Hi; symmetry; apply Hag; nia).
+  assert (E : mloadw m2 a2 = mloadw m1 a1).
+  { apply mloadw_pt. intros i Hi. symmetry. apply Hag. assert (0 <= bd * vmem_size t) by (apply Z.mul_nonneg_nonneg; lia). lia. }
   rewrite E. cbn [in_type] in Hin. apply andb_prop in Hin as [Hl Hall]. rewrite forallb_forall in Hall.
   unfold zlen in Hl. rewrite map_length, seq_length in Hl.
   f_equal. apply map_seq_ext. intros i Hi. apply IHt; auto.
-  + intros j Hj. rewrite <- !Z.add_assoc. apply Hag. nia.
+  + apply (agree_elem m1 m2 a1 a2 bd (vmem_size t) (Z.of_nat i) 32); auto; lia.
   + apply Hall. apply in_map_iff. exists i. split; auto. apply in_seq. lia.
 Qed.
 
